@@ -9,6 +9,10 @@ finish request i, the transport pauses / resumes the channel, the connection is 
 request's resource writes the first half of its response when it is handed over and the second half
 when it finishes, so interleaving would be visible on the wire.
 
+Every request has three independent notifyFinish observers (two from the hand-over on, one registered
+just before finish()); the first one's callback returns a non-None value and its errback swallows
+the failure, which the other observers must never see.
+
 Oracle: a reference model of a head-of-line-blocking server (reference_run) predicts the exact
 event sequence (hand-over, finish, notifyFinish results) and the exact bytes on the wire; in
 addition the schedule-independent invariants are checked directly on the recorded events.
@@ -81,17 +85,28 @@ class ScriptedRequest(L.Request):
         ch = self.channel
         i = len(ch.v_handed)
         self.v_idx = i
+        self.v_deferreds = []
         ch.v_handed.append(self)
         ev = ch.v_events
         ev.append(("recv", i, t(self.method), t(self.uri), t(self.content.read())))
-        d = self.notifyFinish()
-        d.addCallbacks(lambda r: ev.append(("nf-ok", i, r is None)) and None,
-                       lambda f: ev.append(("nf-err", i)) and None)
+        # three independent observers: two register now, the third just before finish().  The first
+        # one's handlers return a non-None value / swallow the failure: the others must not see that
+        self.v_observe(0, "seen by observer 0")
+        self.v_observe(1, None)
         self.write(b("A%d" % i))
         if ch.v_now[i]:
             self.v_finish()
 
+    def v_observe(self, obs, retval):
+        ev = self.channel.v_events
+        i = self.v_idx
+        d = self.notifyFinish()
+        d.addCallbacks(lambda r: ev.append(("nf-ok", i, r is None, obs)) and None or retval,
+                       lambda f: ev.append(("nf-err", i, f.check(ConnectionDone) is not None, obs)) and None)
+        self.v_deferreds.append(d)
+
     def v_finish(self):
+        self.v_observe(2, None)
         self.channel.v_events.append(("fin", self.v_idx))
         self.write(b("B%d" % self.v_idx))
         self.finish()
@@ -146,14 +161,18 @@ def reference_run(now, completes, ops):
     return ev, nf, wire, True
 
 
+NOBS = 3
+
+
 def _invariants(ev):
     """the property, stated on the recorded events alone: at most one request in application hands,
-    in order; each notifyFinish result at most once, 'ok' (with None) only after the request's own
-    finish, 'err' only for a request that was handed over and not finished"""
+    in order; every notifyFinish observer gets at most one result, 'ok' with None and only after the
+    request's own finish, 'err' with the connection's failure and only for a request that was handed
+    over and not finished"""
     inhands = -1
     last = -1
-    state = ["new"] * NREQ      # new -> handed -> finished ; plus notified flags
-    notified = [0] * NREQ
+    state = ["new"] * NREQ      # new -> handed -> finished
+    notified = [[0] * NOBS for _ in range(NREQ)]
     for e in ev:
         i = e[1]
         if e[0] == "recv":
@@ -169,29 +188,44 @@ def _invariants(ev):
         elif e[0] == "nf-ok":
             if state[i] != "finished" or e[2] is not True:
                 return False              # fires only once its own response is finished, with None
-            notified[i] += 1
+            notified[i][e[3]] += 1
         elif e[0] == "nf-err":
-            if state[i] != "handed":
+            if state[i] != "handed" or e[2] is not True:
+                return False              # only while in application hands, with the connection's failure
+            notified[i][e[3]] += 1
+    for per in notified:
+        for n in per:
+            if n > 1:
                 return False
-            notified[i] += 1
-    for n in notified:
-        if n > 1:
-            return False
     return True
 
 
 def _project(ev):
-    """(hand-over / finish events in order, notification result per request)"""
+    """(hand-over / finish events in order, notification result per request and observer)"""
     main = []
-    nf = [None] * NREQ
+    nf = [[None] * NOBS for _ in range(NREQ)]
     for e in ev:
         if e[0] == "nf-ok":
-            nf[e[1]] = "ok" if nf[e[1]] is None else "twice"
+            nf[e[1]][e[3]] = "ok" if nf[e[1]][e[3]] is None else "twice"
         elif e[0] == "nf-err":
-            nf[e[1]] = "err" if nf[e[1]] is None else "twice"
+            nf[e[1]][e[3]] = "err" if nf[e[1]][e[3]] is None else "twice"
         else:
             main.append(e)
     return main, nf
+
+
+def _expected_nf(nf):
+    """the model's result per request -> per observer: observers 0 and 1 exist from the hand-over on,
+    observer 2 only registers immediately before finish()"""
+    out = []
+    for r in nf:
+        if r == "ok":
+            out.append(["ok"] * NOBS)
+        elif r == "err":
+            out.append(["err", "err", None])
+        else:
+            out.append([None] * NOBS)
+    return out
 
 
 def pipeline(now: int, cut: int, sched: List[int]) -> bool:
@@ -253,8 +287,14 @@ def pipeline(now: int, cut: int, sched: List[int]) -> bool:
         return False
     if tr.paused and not asked_pause and not lost:
         return False                                      # reading stays switched off although nobody asked for it
+    for r in ch.v_handed:
+        ds = r.v_deferreds
+        for x in range(len(ds)):
+            for y in range(x + 1, len(ds)):
+                if ds[x] is ds[y]:
+                    return False                          # each notifyFinish() call returns its own Deferred
     got_ev, got_nf = _project(ev)
-    return got_ev == exp_ev and got_nf == exp_nf and tr.value() == exp_wire and not tr.closed
+    return got_ev == exp_ev and got_nf == _expected_nf(exp_nf) and tr.value() == exp_wire and not tr.closed
 
 
 HARNESSES = [
@@ -276,8 +316,10 @@ def selftest():
     assert wire == "".join(_first_half(i) + _second_half(i) for i in range(3))
     assert reference_run([False] * 3, [1, 2, 3], [0, 2])[3] is False
     assert reference_run([False] * 3, [1, 2, 3], [0, 0, 5])[1] == ["err", None, None]
-    full = [("recv", 0), ("fin", 0), ("recv", 1), ("nf-ok", 0, True), ("fin", 1), ("nf-ok", 1, True)]
-    assert _invariants(full) and not _invariants(full + [("nf-ok", 1, True)]) and not _invariants(full[:1] + full[2:3])
-    assert not _invariants([("recv", 0), ("nf-ok", 0, True)]) and _invariants([("recv", 0), ("nf-err", 0)])
-    assert not _invariants([("recv", 0), ("fin", 0), ("nf-ok", 0, True), ("nf-err", 0)])
+    full = [("recv", 0), ("fin", 0), ("recv", 1), ("nf-ok", 0, True, 0), ("nf-ok", 0, True, 1), ("fin", 1), ("nf-ok", 1, True, 2)]
+    assert _invariants(full) and not _invariants(full + [("nf-ok", 1, True, 2)]) and not _invariants(full[:1] + full[2:3])
+    assert _invariants(full + [("nf-ok", 1, True, 0)]) and not _invariants(full + [("nf-ok", 1, False, 0)])
+    assert not _invariants([("recv", 0), ("nf-ok", 0, True, 0)]) and _invariants([("recv", 0), ("nf-err", 0, True, 1)])
+    assert not _invariants([("recv", 0), ("fin", 0), ("nf-ok", 0, True, 0), ("nf-err", 0, True, 0)])
+    assert not _invariants([("recv", 0), ("nf-err", 0, False, 1)])
     return lbytes.selftest() + 9
